@@ -172,7 +172,7 @@ TABLE = {
     # ---- merkle
     ("crypto::merkle::DoubleMerkleRoot::short_hex", "index", "[u8][RangeTo<usize>]"): (1, "[..4] of a 32-byte hash"),
     ("crypto::merkle::MerkleTree::create_proof", "panic", "panicking::panic"):
-        (2, "index < leaves: blockstore callers pass a slice index for which get_slice_root / get_last_slice_index answered (try_build_response returns None before create_double_merkle_proof otherwise); shredder passes 0..TOTAL_SHREDS over a TOTAL_SHREDS-leaf tree"),
+        (2, "index < leaves: blockstore callers pass a slice index for which get_slice_root / get_last_slice_index answered (try_build_response returns None before create_double_merkle_proof otherwise: C14 O14.4 index-established + callers); shredder passes 0..TOTAL_SHREDS over a TOTAL_SHREDS-leaf tree"),
     ("crypto::merkle::MerkleTree::create_proof", "index", "SmallVec<[(u32, u32); 32]>[usize]"): (1, "levels[0] exists: trees have >= 1 leaf (MerkleTree::new asserts)"),
     ("crypto::merkle::MerkleTree::create_proof", "assert", "BoundsCheck"): (1, "EMPTY_ROOTS[h], h < height <= MAX_MERKLE_TREE_HEIGHT (leaf count fits u32 / const asserts on TOTAL_SHREDS, MAX_SLICES_PER_BLOCK)"),
     ("crypto::merkle::MerkleTree::create_proof", "index", "Vec<Hash>[usize]"): (1, "offset + (i^1) < offset + len by the branch condition"),
@@ -239,10 +239,10 @@ TABLE = {
     ("shredder::reed_solomon::ReedSolomonCoder::encode_coding_from_data", "index", "Vec<Vec<u8>>[usize]"): (1, "DATA_SHREDS entries asserted on the line before"),
     ("shredder::reed_solomon::ReedSolomonCoder::encode_coding_from_data", "panic", "panicking::assert_failed"): (1, "deshred pushes one entry per data shard (loop over received[0..DATA_SHREDS])"),
     ("shredder::reed_solomon::ReedSolomonCoder::encode_coding_from_data", "unwrap", "Result::expect"): (3, "same shard size and count as the successful decode"),
-    ("shredder::reed_solomon::ReedSolomonCoder::shred", "unwrap", "Result::expect"): (2, "own payload <= MAX_DATA_PER_SLICE: shard size even and <= MAX_DATA_PER_SHRED (O11.3)"),
-    ("shredder::reed_solomon::ReedSolomonCoder::shred", "index", "[u8][RangeFrom<usize>]"): (1, "boundary <= payload.len() by construction (own payload)"),
-    ("shredder::reed_solomon::ReedSolomonCoder::shred", "index", "[u8][RangeTo<usize>]"): (1, "boundary <= payload.len() by construction (own payload)"),
-    ("shredder::reed_solomon::ReedSolomonCoder::shred::{closure#0}", "unwrap", "Result::expect"): (1, "DATA_SHREDS chunks of shard size (own payload)"),
+    ("shredder::reed_solomon::ReedSolomonCoder::shred", "unwrap", "Result::expect"): (2, "shard size even, positive and <= MAX_DATA_PER_SHRED for every payload length <= MAX_DATA_PER_SLICE (evaluated, C11 O11.6; gate O11.3)"),
+    ("shredder::reed_solomon::ReedSolomonCoder::shred", "index", "[u8][RangeFrom<usize>]"): (1, "boundary <= payload.len() for every payload length (evaluated, C11 O11.6)"),
+    ("shredder::reed_solomon::ReedSolomonCoder::shred", "index", "[u8][RangeTo<usize>]"): (1, "boundary <= payload.len() for every payload length (evaluated, C11 O11.6)"),
+    ("shredder::reed_solomon::ReedSolomonCoder::shred::{closure#0}", "unwrap", "Result::expect"): (1, "exactly DATA_SHREDS chunks of the shard size for every payload length (evaluated, C11 O11.6)"),
     ("shredder::validated_shred::ValidatedShred::new_validated", "panic", "panicking::assert_failed"): (1, "debug assertion: proofs come from the tree whose root is passed (fill_missing_shreds)"),
     ("shredder::validated_shreds::ValidatedShreds::any_shred", "unwrap", "Option::expect"): (1, "try_new returns None for an empty set"),
     ("shredder::validated_shreds::ValidatedShreds::coding_shred_payloads::{closure#0}::{closure#0}", "panic", "panicking::panic_fmt"): (1, "kind == position checked in try_new"),
